@@ -291,3 +291,106 @@ def build_wire_image(tree):
 
 TARGETS['TC03wireV'] = {'file': 'volume.py', 'build': build_wire_volume}
 TARGETS['TC03wireI'] = {'file': 'image.py', 'build': build_wire_image}
+
+
+# ---------------------------------------------------------------------------------------------- Segmentation.__init__ wiring
+def _block_env(stmts):
+    env = {}
+    for st in stmts:
+        for n in ast.walk(st):
+            if isinstance(n, ast.Assign) and len(n.targets) == 1 and isinstance(n.targets[0], ast.Name):
+                env.setdefault(n.targets[0].id, []).append(n.value)
+    return {k: v[0] for k, v in env.items() if len(v) == 1}
+
+
+def _inline_env(node, env, depth=5):
+    class T(ast.NodeTransformer):
+        def __init__(self, d):
+            self.d = d
+
+        def visit_Name(self, n):
+            if isinstance(n.ctx, ast.Load) and n.id in env and self.d > 0:
+                return T(self.d - 1).visit(copy.deepcopy(env[n.id]))
+            return n
+    return ast.unparse(T(depth).visit(copy.deepcopy(node)))
+
+
+def build_wire_seg(tree):
+    """seg/sop.py Segmentation.__init__ / _add_slide_coordinate_metadata: what placement is recorded"""
+    fn = find_func(tree, 'Segmentation.__init__')
+    rows = []
+    # (1) placement taken from a volume
+    ifs = [n for n in ast.walk(fn) if isinstance(n, ast.If) and ast.unparse(n.test) == 'from_volume']
+    if len(ifs) != 1:
+        raise Unsupported('`if from_volume:` not found')
+    env = _block_env(ifs[0].body)
+    for name in ('plane_positions', 'plane_orientation', 'pixel_measures'):
+        if name not in env:
+            raise Unsupported(f'from_volume block: {name} is not assigned exactly once')
+        rows.append(('from_volume.' + name, ast.unparse(env[name])))
+    # (2) inference of SpacingBetweenSlices
+    ifs = [n for n in ast.walk(fn) if isinstance(n, ast.If) and "'SpacingBetweenSlices' not in pixel_measures[0]" in ast.unparse(n.test)]
+    if len(ifs) != 1:
+        raise Unsupported("`if 'SpacingBetweenSlices' not in pixel_measures[0]:` not found")
+    blk = ifs[0]
+    env = _block_env(blk.body)
+    calls = [n for n in ast.walk(blk) if isinstance(n, ast.Call) and ast.unparse(n.func) == 'get_volume_positions']
+    if len(calls) != 1 or calls[0].args:
+        raise Unsupported('spacing inference: one keyword-only call of get_volume_positions expected')
+    for k in calls[0].keywords:
+        rows.append(('spacing_inference.' + k.arg, _inline_env(k.value, env)))
+    rec = [n for n in ast.walk(blk) if isinstance(n, ast.Assign) and ast.unparse(n.targets[0]) == 'pixel_measures[0].SpacingBetweenSlices']
+    if len(rec) != 1:
+        raise Unsupported('spacing inference: assignment of pixel_measures[0].SpacingBetweenSlices not found')
+    rows.append(('spacing_inference.recorded', ast.unparse(rec[0].value)))
+    guards = [n for n in ast.walk(blk) if isinstance(n, ast.If) and n is not blk]
+    rows.append(('spacing_inference.recorded_if', ' ; '.join(ast.unparse(g.test) for g in guards)))
+    rows.append(('spacing_inference.only_if', ast.unparse(blk.test)))
+    # (3) user-placed total pixel matrix
+    ifs = [n for n in ast.walk(fn) if isinstance(n, ast.If) and ast.unparse(n.test) == 'plane_positions is None'
+           and any(isinstance(x, ast.Assign) and ast.unparse(x.targets[0]) == 'origin_preserved' for x in n.body)]
+    if len(ifs) != 1:
+        raise Unsupported('tiled placement: `if plane_positions is None:` with origin_preserved not found')
+    user = ifs[0].orelse
+    env = _block_env(user)
+    for name in ('x_offset', 'y_offset', 'z_offset'):
+        if name not in env:
+            raise Unsupported(f'tiled placement: {name} not assigned once in the user branch')
+        rows.append(('tiled.user_' + name, _inline_env(env[name], {k: v for k, v in env.items() if k == 'pp'})))
+    outer = _simple_assigns(fn)
+    for name in ('src_x_offset', 'src_y_offset', 'src_z_offset', 'image_position', 'are_total_pixel_matrix_locations_preserved'):
+        if name not in outer:
+            raise Unsupported(f'tiled placement: {name} not assigned exactly once')
+        rows.append(('tiled.' + name, _inline_env(outer[name], {k: v for k, v in outer.items() if k == 'src_origin_seq'})))
+    rows += [('tiled.tile_positions.' + k, v) for k, v in _kwargs_of_call(fn, 'compute_tile_positions_per_frame', 'tile positions', depth=0)]
+    rows += [('slide_metadata.call.' + k, v) for k, v in _kwargs_of_call(fn, 'self._add_slide_coordinate_metadata', 'slide metadata call', depth=0)]
+    # origin_preserved as an executable definition
+    op = [x for x in user if isinstance(x, ast.Assign) and ast.unparse(x.targets[0]) == 'origin_preserved']
+    if len(op) != 1:
+        raise Unsupported('tiled placement: origin_preserved of the user branch not found')
+    ret = ast.Return(value=op[0].value)
+    ast.fix_missing_locations(ret)
+    t_op = translate_block([ret], 'originPreserved',
+                           [(n, 'rat') for n in ('x_offset', 'y_offset', 'z_offset', 'src_x_offset', 'src_y_offset', 'src_z_offset')], {},
+                           doc='`Segmentation.__init__`, tile_pixel_array with a user-supplied plane position: `origin_preserved`')
+    # (4) what _add_slide_coordinate_metadata records as origin
+    f2 = find_func(tree, 'Segmentation._add_slide_coordinate_metadata')
+    top = [n for n in f2.body if isinstance(n, ast.If)]
+    if len(top) != 1:
+        raise Unsupported('_add_slide_coordinate_metadata: one top-level if/elif/else expected')
+    rows.append(('slide_metadata.copy_source_origin_if', ast.unparse(top[0].test)))
+    cp = [n for n in top[0].body if isinstance(n, ast.Assign) and ast.unparse(n.targets[0]) == 'self.TotalPixelMatrixOriginSequence']
+    if len(cp) != 1:
+        raise Unsupported('_add_slide_coordinate_metadata: copy of the source origin not found')
+    rows.append(('slide_metadata.copied_origin', ast.unparse(cp[0].value)))
+    env2 = _simple_assigns(f2)
+    for name in ('x_origin', 'y_origin', 'z_origin'):
+        if name not in env2:
+            raise Unsupported(f'_add_slide_coordinate_metadata: {name} not assigned exactly once')
+        rows.append(('slide_metadata.' + name, _inline(f2, env2[name], 4)))
+    text = _table('wiringSeg', rows, 'seg/sop.py: which placement a Segmentation records (source text, block-local single-assignment '
+                                     'locals inlined)')
+    return t_op + '\n\n' + text, hashlib.sha256(repr(rows).encode()).hexdigest() + span_sha([op[0]])[:8]
+
+
+TARGETS['TC03wireS'] = {'file': 'seg/sop.py', 'build': build_wire_seg}
